@@ -43,7 +43,9 @@ def recase_values(d, ch):
     if isinstance(d, dict):
         out = type(d)(d.default_factory) if hasattr(d, "default_factory") else type(d)()
         for k, v in d.items():
-            out[k] = v if (isinstance(k, str) and k.startswith("__")) else recase_values(v, ch)
+            # (__type__ is a value like any other: a dictionary built by hand may say "MAP"; the other hidden keys hold
+            #  bookkeeping records and stay as they are)
+            out[k] = v if (isinstance(k, str) and k.startswith("__") and k != "__type__") else recase_values(v, ch)
         return out
     if isinstance(d, list):
         return [recase_values(v, ch) for v in d]
